@@ -30,9 +30,9 @@ sys.path.insert(0, str(VERIF / "translator"))
 # hand model.  Each module only concerns the named fragment, so a source change breaks the obligations of the
 # properties that depend on that fragment and of no other.
 EXTRA_MODULES = {
-    "C01": ["Tie.Plan", "Tie.SeekArith"],
-    "C02": ["Tie.SeekArith"],
-    "C03": ["Tie.Bits"],
+    "C01": ["Tie.Plan", "Tie.SeekArith", "Tie.ReadLoops"],
+    "C02": ["Tie.SeekArith", "Tie.ReadLoops"],
+    "C03": ["Tie.Bits", "Tie.BitsValidation"],
     "C04": ["Tie.Bits", "Tie.SigprocTables"],
     "C05": ["Tie.SigprocTables"],
     "C06": ["Tie.Plan", "Tie.Collapse", "Tie.Dedisperse", "Kernels.ExtractTim", "Kernels.ExtractBpass", "Kernels.Dedisperse"],
